@@ -6,7 +6,7 @@ import ast
 from ..facts import LP_CLASS, NP_CLASS, call_chain, calls_of, enclosing_fn, fmt_target, walk
 from ..model import norm_stmt
 from .common import facts, parent, value_dead
-from .kill import KillWalker, loc_of_target, is_object_publish
+from .kill import KillWalker, dep_locations, is_object_publish, loc_of_target
 
 EXPLANATION = (
     "The decomposition the property names, decided on the sources. (R5.1 row-locality) In the abstract trace of "
@@ -238,7 +238,12 @@ def _check_carried(ctx, F, w, c, pc, loop, fn, sim):
             guards = [g for g in ev.guards if g not in pc.guards]
             inv = all(not _row_variant(g.val, loop, eng) for g in guards if g.node is not getattr(loop.node, 'iter', None))
             kinv = key is None or not _row_variant(key, loop, eng)
-            vinv = True
+            val = ev.a.get("value")
+            if inv and kinv and val is not None and not _row_variant(val, loop, eng) and \
+                    not (dep_locations(eng, val.deps) & {loc_of_target(t2) for t2 in ev.a["targets"]}):
+                # the same row-independent value whichever row (and however many rows) wrote it
+                ctx.ok("R5.1", "value written to a worker-local object does not depend on the row", ev.node, ev.fn)
+                continue
             if inv and kinv and ev.a["step"] == "[*]":
                 ctx.ok("R5.1", "write into a worker-local container is keyed and guarded row-invariantly", ev.node,
                        ev.fn)
@@ -255,6 +260,14 @@ def _check_carried(ctx, F, w, c, pc, loop, fn, sim):
                     if t.region == "fresh" and not any(l == lid for l, _ in eng.obj(t.oid).stamp) and \
                             t.field not in ("is_contextual_binarized", "rng"):
                         wanted.add(loc_of_target(t))
+        # only state that can reach a row's output (or an exception) matters: a leftover nobody reads before the
+        # next full reset cannot make the result depend on the chunking
+        relevant = _relevant_locations(eng, loop, lid)
+        for l in sorted(wanted - relevant, key=str):
+            o = eng.obj(l[0])
+            ctx.ok("R5.1", "%s.%s of the worker-local policy does not reach a row's result" % (o.cls, l[1]),
+                   fitc.a["callee"].node, fitc.a["callee"], construct="def %s.fit" % fitc.a["callee"].cls.name)
+        wanted &= relevant
         kw = KillWalker(eng, w, wanted)
         kw.regions = {"fresh"}
         # loops enclosing the call are irrelevant for the walk
@@ -270,6 +283,45 @@ def _check_carried(ctx, F, w, c, pc, loop, fn, sim):
                         (e[0].node if e else f.node), (e[0].fn if e else f),
                         "worker-local policy state carried across rows (%s) [%s]" % (e[1] if e else "not reset",
                                                                                      c.name))
+
+
+def _relevant_locations(eng, loop, lid):
+    """Locations whose content can flow (data or control) into the per-row output slot, an object that outlives
+    the iteration, or a raise, within one iteration of the row loop."""
+    R = set()
+    sts = []
+
+    def add(v):
+        if v is not None:
+            R.update(dep_locations(eng, v.deps))
+
+    for ev, anc in walk(loop):
+        if ev.kind == "raise":
+            for g in ev.guards:
+                add(g.val)
+        elif ev.kind == "store":
+            sts.append(ev)
+            fresh_carried = [t for t in ev.a["targets"] if t.region == "fresh" and
+                             not any(l == lid for l, _ in eng.obj(t.oid).stamp)]
+            if any(t.region != "fresh" for t in ev.a["targets"]) or (
+                    fresh_carried and all(eng.obj(t.oid).cls not in eng.prog.classes for t in fresh_carried)
+                    and ev.a["step"] == "[*]"):
+                # output containers (plain lists/dicts created before the loop) and anything not worker-local
+                add(ev.a["value"])
+                add(ev.a.get("key"))
+                for g in ev.guards:
+                    add(g.val)
+    changed = True
+    while changed:
+        changed = False
+        n = len(R)
+        for ev in sts:
+            if any(loc_of_target(t) in R for t in ev.a["targets"]):
+                add(ev.a["value"])
+                for g in ev.guards:
+                    add(g.val)
+        changed = len(R) != n
+    return R
 
 
 def pc_epoch(pc, eng):
@@ -295,47 +347,45 @@ def check_partition_sites(ctx):
                           "no Parallel(...)(...) call without require= found", construct="def " + qual)
             continue
         n += 1
+        from .pattern import find, match
         gen = par.args[0]
         g = gen.generators[0]
         ivar = ast.unparse(g.target)
         task = gen.elt
-        ctx.check(ast.unparse(g.iter) == "range(n_jobs)", "R5.2", "%s: tasks range over range(n_jobs)" % qual, par,
-                  fn, "iterable is %s" % ast.unparse(g.iter), construct="for %s in %s" % (ivar, ast.unparse(g.iter)))
-        # the partition call
-        part = None
-        for node in ast.walk(fn.node):
-            if isinstance(node, ast.Assign) and isinstance(node.value, ast.Call) and \
-                    ast.unparse(node.value.func) == "self._partition_contexts" and \
-                    isinstance(node.targets[0], ast.Tuple):
-                part = node
-        ok = part is not None and [ast.unparse(e) for e in part.targets[0].elts][0] == "n_jobs" and \
-            ast.unparse(part.targets[0].elts[2]) == "starts" and part.lineno < par.lineno
-        ctx.check(ok, "R5.2", "%s: n_jobs and starts come from one _partition_contexts call before the tasks" % qual,
+        # the partition call (names of the three results are free)
+        part, pb = find("_NJ_, _NC_, _ST_ = self._partition_contexts(_EA_)", fn.node)
+        okp = part is not None and part.lineno < par.lineno
+        ctx.check(okp, "R5.2", "%s: n_jobs and starts come from one _partition_contexts call before the tasks" % qual,
                   part if part is not None else par, fn)
+        if not okp:
+            continue
+        NJ, ST = pb["_NJ_"], pb["_ST_"]
+        ctx.check(ast.unparse(g.iter) == "range(%s)" % NJ, "R5.2", "%s: tasks range over range(n_jobs)" % qual, par,
+                  fn, "iterable is %s" % ast.unparse(g.iter), construct="task iterable of " + qual)
+        pkw = {k.arg: ast.unparse(k.value) for k in par.func.keywords}
+        ctx.check(pkw.get("n_jobs") == NJ, "R5.2", "%s: Parallel runs with the n_jobs of the partition" % qual, par, fn,
+                  "n_jobs=%s" % pkw.get("n_jobs"), construct="Parallel n_jobs of " + qual)
         # slices
         sl = [a for a in task.args if isinstance(a, ast.Subscript) and isinstance(a.slice, ast.Slice)]
-        want = ("starts[%s]" % ivar, "starts[%s + 1]" % ivar)
+        want = ("%s[%s]" % (ST, ivar), "%s[%s + 1]" % (ST, ivar))
         okb = bool(sl) and all(ast.unparse(a.slice.lower) == want[0] and ast.unparse(a.slice.upper) == want[1]
                                and a.slice.step is None for a in sl)
         ctx.check(okb, "R5.2", "%s: every per-row argument is sliced starts[i]:starts[i+1]" % qual, task, fn,
-                  "slices: %s" % [ast.unparse(a) for a in sl], construct=norm_stmt(task))
+                  "slices: %s" % [ast.unparse(a) for a in sl], construct="task slices of " + qual)
         sliced = [ast.unparse(a.value) for a in sl]
         # the partitioned length is the length of the sliced array
-        if part is not None:
-            arg = ast.unparse(part.value.args[0]) if part.value.args else ""
-            lens = {"len(%s)" % s for s in sliced}
-            src_ok = arg in lens
-            if not src_ok:
-                # n_contexts = len(contexts) earlier
-                for node in ast.walk(fn.node):
-                    if isinstance(node, ast.Assign) and ast.unparse(node.targets[0]) == arg and \
-                            ast.unparse(node.value) in lens and node.lineno < part.lineno:
-                        src_ok = True
-            ctx.check(src_ok, "R5.2", "%s: the partition is computed from the length of the sliced rows" % qual, part,
-                      fn, "_partition_contexts(%s) vs sliced %s" % (arg, sliced))
+        arg = pb["_EA_"]
+        lens = {"len(%s)" % s for s in sliced}
+        src_ok = arg in lens
+        if not src_ok:
+            for node in ast.walk(fn.node):
+                if isinstance(node, ast.Assign) and ast.unparse(node.targets[0]) == arg and \
+                        ast.unparse(node.value) in lens and node.lineno < part.lineno:
+                    src_ok = True
+        ctx.check(src_ok, "R5.2", "%s: the partition is computed from the length of the sliced rows" % qual, part,
+                  fn, "_partition_contexts(%s) vs sliced %s" % (arg, sliced), construct="partition source of " + qual)
         # offset argument
         callee_name = ast.unparse(task.func.args[0]).split(".")[-1]
-        others = [a for a in task.args if a not in sl]
         off_pos = None
         for cand in prog.all_functions():
             if cand.name == callee_name and "start_index" in cand.params:
@@ -343,20 +393,22 @@ def check_partition_sites(ctx):
         for pos, a in enumerate(task.args):
             if a in sl:
                 continue
-            s = ast.unparse(a)
-            if "starts" in s or pos == off_pos:
-                ctx.check(s == "starts[%s]" % ivar, "R5.2", "%s: the offset argument is the slice's lower bound" % qual,
-                          a, fn, "offset %s" % s, construct=norm_stmt(task))
-        # per-row seeds sliced with the rows
-        if "seeds" in " ".join(sliced) or meth == "_parallel_predict":
-            ctx.check("seeds" in sliced and len(sl) >= 2, "R5.2", "%s: seeds are sliced with the same bounds as the "
-                      "rows" % qual, task, fn, construct=norm_stmt(task))
-            seeds_stmt = None
+            s_ = ast.unparse(a)
+            if (isinstance(a, ast.Subscript) and ast.unparse(a.value) == ST) or pos == off_pos:
+                ctx.check(s_ == "%s[%s]" % (ST, ivar), "R5.2", "%s: the offset argument is the slice's lower bound" %
+                          qual, a, fn, "offset %s" % s_, construct="offset argument of " + qual)
+        # per-row seeds: a sliced name that was drawn from the bandit generator
+        seeds_stmt = None
+        seeds_name = None
+        for nm in sliced:
             for node in ast.walk(fn.node):
-                if isinstance(node, ast.Assign) and ast.unparse(node.targets[0]) == "seeds":
-                    seeds_stmt = node
-            oks = seeds_stmt is not None and seeds_stmt.lineno < par.lineno and "self.rng" in ast.unparse(
-                seeds_stmt.value)
+                if isinstance(node, ast.Assign) and ast.unparse(node.targets[0]) == nm and \
+                        ast.unparse(node.value).startswith("self.rng."):
+                    seeds_stmt, seeds_name = node, nm
+        if meth == "_parallel_predict" or seeds_stmt is not None:
+            ctx.check(seeds_stmt is not None and len(sl) >= 2, "R5.2", "%s: the per-row seeds are sliced with the "
+                      "same bounds as the rows" % qual, task, fn, construct="seed slices of " + qual)
+            oks = seeds_stmt is not None and seeds_stmt.lineno < par.lineno
             size = None
             if oks:
                 for k in seeds_stmt.value.keywords:
@@ -364,15 +416,17 @@ def check_partition_sites(ctx):
                         size = ast.unparse(k.value)
             total_ok = False
             if size is not None:
-                if size in ("len(contexts)", "n_contexts"):
+                rows = [x for x in sliced if x != seeds_name]
+                if size in ["len(%s)" % r for r in rows]:
                     total_ok = True
                 for node in ast.walk(fn.node):
                     if isinstance(node, ast.Assign) and ast.unparse(node.targets[0]) == size and \
-                            ast.unparse(node.value) in ("sum(n_contexts)", "len(contexts)"):
+                            ast.unparse(node.value) in ["sum(%s)" % pb["_NC_"]] + ["len(%s)" % r for r in rows]:
                         total_ok = True
             ctx.check(bool(oks and total_ok), "R5.2", "%s: one seed per row is drawn from the bandit generator "
                       "before the tasks start, with a size that is the total row count" % qual,
-                      seeds_stmt if seeds_stmt is not None else par, fn, "size=%s" % size)
+                      seeds_stmt if seeds_stmt is not None else par, fn, "size=%s" % size,
+                      construct="seed draw of " + qual)
         # ordered reduction
         red = None
         for node in ast.walk(fn.node):
@@ -382,7 +436,7 @@ def check_partition_sites(ctx):
         okr = red is not None and red.lineno > par.lineno and isinstance(parent(red), ast.Call) and \
             ast.unparse(parent(red).func) == "list"
         ctx.check(okr, "R5.2", "%s: results are concatenated in submission order (list(chain.from_iterable))" % qual,
-                  red if red is not None else par, fn)
+                  red if red is not None else par, fn, construct="reduction of " + qual)
     ctx.floor("R5.2", "row-partitioned Parallel sites", n, 4)
 
 
